@@ -139,6 +139,16 @@ def TopoB.inB (t : TopoB) (n : Nat) : Bool := t.zoneB.getD n false
 def TopoB.wire (t : TopoB) (n q : Nat) : Option (Nat × Nat) :=
   (t.wires.find? (fun w => w.1.1 == n && w.1.2 == q)).map (·.2)
 
+/-- every node that can send to port `p` of `n` is inside the protected zone -/
+def TopoB.fromB (t : TopoB) (n p : Nat) : Bool := t.wires.all (fun w => !(w.2.1 == n && w.2.2 == p) || t.inB w.1.1)
+
+/-- frames arriving at `(n, p)` have been handled by the zone: `n` is inside it, or only zone nodes can send there -/
+def TopoB.zone (t : TopoB) (n p : Nat) : Bool := t.inB n || t.fromB n p
+
+/-- the arrival port of a first-stage entry point -/
+def portOf : FwEntry → Nat
+  | .extIn => extPort | .intOut => intPort | .dmzOut => dmzPort | _ => 99
+
 /-- no wire of `n` leads into the protected zone -/
 def TopoB.outside (t : TopoB) (n : Nat) : Bool := t.wires.all (fun w => w.1.1 != n || !t.inB w.2.1)
 
@@ -152,11 +162,11 @@ def inDmzL (ifs : List Iface) (a : Ip) : Bool :=
 def selE (ifs : List Iface) (e : FwEntry) (a : Ip) : FwEntry :=
   if inDmzL ifs a then .dmzIn else (if e == .extIn then .intIn else .extOut)
 
-/-- a firewall guards the zone: for every arrival port, a frame addressed to a protected address is denied by the first list
+/-- a firewall guards the zone: for every arrival port that nodes outside the zone can send to (`need`), a frame addressed to a protected address is denied by the first list
 or by the list of the second entry point the code selects for that address (DMZ-outbound: by both candidates) -/
-def fwGuards (ba : List Ip) (s : Node W) : Bool :=
+def fwGuards (need : FwEntry → Bool) (ba : List Ip) (s : Node W) : Bool :=
   [FwEntry.extIn, FwEntry.intOut, FwEntry.dmzOut].all fun e =>
-    denyDstCheck ba (s.acls (entryAcl e)) ||
+    !need e || denyDstCheck ba (s.acls (entryAcl e)) ||
       match e with
       | .dmzOut => denyDstCheck ba (s.acls .extOut) && denyDstCheck ba (s.acls .intIn)
       | _ => ba.all fun a => denyDstCheck [a] (s.acls (entryAcl (selE s.ifaces e a)))
@@ -172,16 +182,16 @@ def certifyNodeB (t : TopoB) (n : Nat) (s : Node W) : Bool :=
   | .rtr => s.kind == .router && s.ifaces.all (fun i => ifaceClean t i && t.rtrIfs.contains (i.mac, i.ip) && bindOK t.rtrIfs i.mac i.ip) &&
       (t.inB n || t.outside n || denyDstCheck t.ba (s.acls .router))
   | .fw => s.kind == .firewall && s.ifaces.all (fun i => ifaceClean t i && t.rtrIfs.contains (i.mac, i.ip) && bindOK t.rtrIfs i.mac i.ip) &&
-      (t.inB n || t.outside n || fwGuards t.ba s)
+      (t.inB n || t.outside n || fwGuards (fun e => !t.fromB n (portOf e)) t.ba s)
   | .deaf => s.kind == .host && t.inB n &&
       s.ifaces.all (fun i => t.ba.contains i.ip && t.ba.contains i.bcastAddr)
 
 def certifyB (t : TopoB) (σ : Nat → Node W) : Bool :=
-  t.hops.all (fun h => !t.ba.contains h) &&
+  t.hops.all (fun h => !t.ba.contains h) && t.wires.all (fun w => decide (w.2.1 < t.roles.length)) &&
   (List.range t.roles.length).all (fun n => certifyNodeB t n (σ n))
 
 def certifyFailB (t : TopoB) (σ : Nat → Node W) : Option Nat :=
-  if !t.hops.all (fun h => !t.ba.contains h) then some 9999 else
+  if !(t.hops.all (fun h => !t.ba.contains h) && t.wires.all (fun w => decide (w.2.1 < t.roles.length))) then some 9999 else
   (List.range t.roles.length).find? (fun n => !certifyNodeB t n (σ n))
 
 /-! ### literal tables tied to the source by Gen/FilterSoft.lean -/
